@@ -1,5 +1,6 @@
 import Tup.Lemmas.TxnCrash
 import Tup.Lemmas.TxnCrashEx
+import Tup.Lemmas.Schema
 /-!
   C12 — a process killed mid-operation leaves the session database consistent and usable.
 
@@ -19,12 +20,15 @@ import Tup.Lemmas.TxnCrashEx
                            (rows carry a description and a timestamp by construction of `Row`);
   * `others_proceed`       nobody waits for the dead: the state it was left in is irrelevant to everybody
                            else, and every other process finishes within its own ≤ 10 blocks.
-  * `reopen_completes_schema` is omitted: `__init__`'s `CREATE TABLE IF NOT EXISTS` DDL and the
-    `PRAGMA`s are not modelled (the model database has its six tables from the start); that a reopened
-    file is usable is observed by the crash enumeration of the check, not proved.
+  * `reopen_completes_schema`, `open_adds_only_schema`, `open_idempotent`, `open_after_creators_killed`
+                           the DDL of `__init__` (`Model/Schema.lean`: 17 `CREATE … IF NOT EXISTS` statements in
+                           autocommit mode; the statement list is K-compared with the traced first open of the real
+                           code): whatever part of the schema a killed creator left, the next open completes it,
+                           drops nothing, and ends with exactly the schema of an undisturbed first open.  The
+                           two `PRAGMA`s (busy timeout, WAL) are sqlite's and not modelled.
 -/
 namespace Tup.C12
-open Tup Tup.Txn Tup.TxnLemmas Tup.DbLemmas Tup.IdLemmas Tup.AllocLemmas Tup.Spec.AllocStep
+open Tup Tup.Txn Tup.TxnLemmas Tup.DbLemmas Tup.IdLemmas Tup.AllocLemmas Tup.Spec.AllocStep Tup.Schema
 
 /-! ## all or nothing: the single-block operations -/
 
@@ -185,5 +189,75 @@ example :
     ((runSched {} ⟨[p0, p1], {}⟩ [0, 1, 1]).procs.map
       fun p => match p with | .finished (.got (.id n) _) => n | _ => 0) = [0, 0x02000200] := by
   decide
+
+/-! ## the schema is completed by whoever opens the file next -/
+
+/-- **reopen_completes_schema.**  Whatever schema objects a database holds — none, all, or the part its creator
+    had created when it was killed —, after the DDL of `IDManager.__init__` every table and index the library's
+    statements refer to exists. -/
+theorem reopen_completes_schema (db : List Obj) : Complete (openDb db) :=
+  fun _ ho => mem_foldl_of_mem_list stmts db ho
+
+/-- … and opening adds nothing else and drops nothing (`CREATE … IF NOT EXISTS` only) -/
+theorem open_adds_only_schema (db : List Obj) (p : Obj) : p ∈ openDb db ↔ p ∈ db ∨ p ∈ stmts :=
+  mem_foldl_iff stmts db p
+
+/-- opening a complete database changes nothing: every later open is a no-op on the schema -/
+theorem open_idempotent (db : List Obj) : openDb (openDb db) = openDb db :=
+  foldl_exec_of_all_mem stmts (openDb db) (reopen_completes_schema db)
+
+/-- the creator killed before its DDL statement `k` (any `k`), then the next process killed before its statement
+    `j` (any `j`), and so on for any number of victims: the first process that gets through leaves exactly the
+    schema an undisturbed first open creates, in the same order. -/
+theorem open_after_creators_killed (ks : List Nat) :
+    openDb (ks.foldl (fun db k => (stmts.take k).foldl exec db) []) = openDb [] := by
+  -- every intermediate state is a prefix of `stmts`
+  have key : ∀ (n : Nat) (k : Nat), (stmts.take k).foldl exec (stmts.take n) = stmts.take (max n k) := by
+    intro n k
+    have : ∀ n ≤ 17, ∀ k ≤ 17, (stmts.take k).foldl exec (stmts.take n) = stmts.take (max n k) := by decide +kernel
+    have hl : stmts.length = 17 := by decide +kernel
+    have e1 : stmts.take n = stmts.take (min n 17) := by
+      rcases Nat.le_total n 17 with h | h
+      · rw [Nat.min_eq_left h]
+      · rw [Nat.min_eq_right h, List.take_of_length_le (by omega), List.take_of_length_le (by omega)]
+    have e2 : stmts.take k = stmts.take (min k 17) := by
+      rcases Nat.le_total k 17 with h | h
+      · rw [Nat.min_eq_left h]
+      · rw [Nat.min_eq_right h, List.take_of_length_le (by omega), List.take_of_length_le (by omega)]
+    have e3 : stmts.take (max n k) = stmts.take (max (min n 17) (min k 17)) := by
+      rcases Nat.le_total (max n k) 17 with h | h
+      · congr 1; omega
+      · rw [List.take_of_length_le (by omega)]
+        by_cases h2 : max (min n 17) (min k 17) = 17
+        · rw [h2, List.take_of_length_le (by omega)]
+        · omega
+    rw [e1, e2, e3]
+    exact this _ (Nat.min_le_right _ _) _ (Nat.min_le_right _ _)
+  have pre : ∀ ks : List Nat, ∀ n, ∃ m, ks.foldl (fun db k => (stmts.take k).foldl exec db) (stmts.take n) = stmts.take m := by
+    intro ks
+    induction ks with
+    | nil => intro n; exact ⟨n, rfl⟩
+    | cons k ks ih => intro n; rw [List.foldl_cons, key]; exact ih _
+  obtain ⟨m, hm⟩ := pre ks 0
+  have h0 : (stmts.take 0) = [] := rfl
+  rw [h0] at hm
+  rw [hm]
+  show stmts.foldl exec (stmts.take m) = stmts.foldl exec []
+  have hl : stmts.length = 17 := by decide +kernel
+  have h17 : stmts.take 17 = stmts := List.take_of_length_le (by omega)
+  have a : stmts.foldl exec (stmts.take m) = stmts.take (max m 17) := by
+    have := key m 17; rw [h17] at this; exact this
+  have b : stmts.foldl exec [] = stmts.take (max 0 17) := by
+    have := key 0 17; rw [h17] at this; exact this
+  rw [a, b, List.take_of_length_le (by omega), List.take_of_length_le (by omega)]
+
+/-- non-vacuity: the seventeen DDL statements, and a creator killed after the first table and its first index -/
+example : stmts.length = 17 ∧ crashedAt 2 = [.table "ids_8bit_diacritic", .index "idx_ids_8bit_diacritic_path_parameters"] ∧
+    ¬ Complete (crashedAt 2) := by
+  refine ⟨by decide +kernel, by decide +kernel, ?_⟩
+  intro h
+  have := h (.table "upload") (by decide +kernel)
+  revert this
+  decide +kernel
 
 end Tup.C12
